@@ -81,3 +81,36 @@ def python_pair_obligations():
             continue
         out.append(('py:_compare_transition_to_match#position-relative-to-the-match#%d' % k, p.pc, as_int(p.value) == want))
     return out
+
+
+def create_match_obligations():
+    """ZoneSpecifier._create_match <-> ExtendedZoneProcessor::createMatch: the era clipped to the viewing interval; the order of
+    date tuples ignores the suffix (C++ operator<), a tuple that is not replaced keeps all five fields"""
+    ORDER = ('y', 'M', 'd', 'ss', 'f')
+    W, S, U = ord('w'), ord('s'), ord('u')
+
+    def m_dt(ex, args, pc, y=None, M=None, d=None, ss=None, f=None):
+        conv = lambda v: ord(v) if isinstance(v, str) and len(v) == 1 else v
+        return TupleRec({'y': y, 'M': M, 'd': d, 'ss': ss, 'f': conv(f)}, ORDER)
+    ex = PyExec(ZS, models={'DateTuple': m_dt, 'ZoneMatch': lambda ex, args, pc: args[0]})
+    I = z3.Int
+    prev = Record({'untilYear': I('p_y'), 'untilMonth': I('p_m'), 'untilDay': I('p_d'), 'untilSeconds': I('p_s'), 'untilTimeSuffix': I('p_f')})
+    era = Record({'untilYear': I('e_y'), 'untilMonth': I('e_m'), 'untilDay': I('e_d'), 'untilSeconds': I('e_s'), 'untilTimeSuffix': I('e_f')})
+    sym, uym = Record({'y': I('s_y'), 'M': I('s_m')}), Record({'y': I('u_y'), 'M': I('u_m')})
+    ok = lambda f: z3.Or(f == W, f == S, f == U)
+    paths = ex.run('ZoneSpecifier._create_match', {'prev_era': prev, 'zone_era': era, 'start_ym': sym, 'until_ym': uym}, pre=[ok(I('p_f')), ok(I('e_f'))])
+    lex_lt = lambda a, b: z3.Or(a[0] < b[0], z3.And(a[0] == b[0], z3.Or(a[1] < b[1], z3.And(a[1] == b[1], z3.Or(a[2] < b[2], z3.And(a[2] == b[2], a[3] < b[3]))))))
+    pu = (I('p_y'), I('p_m'), I('p_d'), I('p_s'), I('p_f'))
+    eu = (I('e_y'), I('e_m'), I('e_d'), I('e_s'), I('e_f'))
+    lower = (I('s_y'), I('s_m'), z3.IntVal(1), z3.IntVal(0), z3.IntVal(W))
+    upper = (I('u_y'), I('u_m'), z3.IntVal(1), z3.IntVal(0), z3.IntVal(W))
+    pick = lambda c, a, b: [z3.If(c, x, y) for x, y in zip(a, b)]
+    want_start = pick(lex_lt(pu, lower), lower, pu)
+    want_until = pick(lex_lt(upper, eu), upper, eu)
+    out = []
+    for k, p in enumerate(paths):
+        st, un = p.value.fields['startDateTime'], p.value.fields['untilDateTime']
+        out.append(('py:_create_match#starts-at-the-later-of-previous-until-and-interval-start#%d' % k, p.pc, z3.And([st.fields[n] == w for n, w in zip(ORDER, want_start)])))
+        out.append(('py:_create_match#ends-at-the-earlier-of-era-until-and-interval-end#%d' % k, p.pc, z3.And([un.fields[n] == w for n, w in zip(ORDER, want_until)])))
+        out.append(('py:_create_match#refers-to-the-era#%d' % k, p.pc, z3.BoolVal(p.value.fields['zoneEra'] is era)))
+    return out
